@@ -102,6 +102,7 @@ class C18Sched(Scheduler):
 
 class C18Spec(c01.C01Spec):
     prop = PROP
+    guide_share = 0
     invariants = INVARIANTS
 
     def draw(self, rng, tier='quick'):
